@@ -25,6 +25,7 @@ func (g *c12Gen) val() (string, string) { // fresh context variable bound to a s
 
 type c12Env struct {
 	frames []map[string]string
+	loops  int // enclosing for loops (their forloop is intact after an inner loop ends)
 }
 
 func (e *c12Env) lookup(n string) string {
@@ -85,14 +86,21 @@ func (g *c12Gen) construct(d int, e *c12Env) (string, string) {
 		g.ctx[ln] = []string{v}
 		e.push()
 		e.set(name, v)
+		e.loops++
 		s, w := g.seq(d-1, e)
+		e.loops--
 		e.pop()
-		return "{% for " + name + " in " + ln + " %}" + s + "{% endfor %}[{{ forloop.Counter }}]", w + "[]"
+		after := "[]" // forloop is gone after the loop ...
+		if e.loops > 0 {
+			after = "[1]" // ... and the enclosing loop's forloop is intact again (one-element lists: Counter 1)
+		}
+		return "{% for " + name + " in " + ln + " %}" + s + "{% endfor %}[{{ forloop.Counter }}]", w + after
 	case 4: // if is transparent: a set inside a taken branch is visible after it (symbolic condition)
 		cn := "c" + itoa(g.n)
 		g.n++
 		c := verifBool()
 		g.ctx[cn] = c
+		savedLoops := e.loops
 		saved := make([]map[string]string, len(e.frames))
 		for i, f := range e.frames {
 			saved[i] = map[string]string{}
@@ -103,6 +111,7 @@ func (g *c12Gen) construct(d int, e *c12Env) (string, string) {
 		s, w := g.seq(d-1, e)
 		if !c {
 			e.frames = saved // branch not taken: nothing inside it happened
+			e.loops = savedLoops
 			w = ""
 		}
 		return "{% if " + cn + " %}" + s + "{% endif %}", w
